@@ -68,7 +68,7 @@ def check_triplet(ctx, n, r, s, detail=True):
         ctx.case("rt.string", key=key, nontrivial=detail, sample=dict(n=n, r=r, s=s, encoded=enc) if ctx.want("rt.string") and n > 300 else None)
         if bytes(enc) != want_r + want_s:
             ctx.violation("string_encoding_wrong", "sigencode_string(%d,%d,%d) = %s" % (r, s, n, bytes(enc).hex()), dict(n=n, r=r, s=s), _rp("string", r, s, n))
-        elif util.sigdecode_string(enc, n) != (r, s):
+        elif util.sigdecode_string(enc, n) != (r, s) or (detail and (util.sigdecode_string(bytearray(enc), n) != (r, s) or util.sigdecode_string(memoryview(enc), n) != (r, s))):
             ctx.violation("string_roundtrip", "sigdecode_string(sigencode_string(%d,%d,%d))" % (r, s, n), dict(n=n, r=r, s=s), _rp("string", r, s, n))
     except Exception as e:
         ctx.case("rt.string", key=key, nontrivial=detail)
@@ -79,7 +79,7 @@ def check_triplet(ctx, n, r, s, detail=True):
         ctx.case("rt.strings", key=key, nontrivial=detail)
         if not (isinstance(enc, tuple) and len(enc) == 2 and bytes(enc[0]) == want_r and bytes(enc[1]) == want_s):
             ctx.violation("strings_encoding_wrong", "sigencode_strings(%d,%d,%d) = %r" % (r, s, n, enc), dict(n=n, r=r, s=s), _rp("strings", r, s, n))
-        elif util.sigdecode_strings(enc, n) != (r, s):
+        elif util.sigdecode_strings(enc, n) != (r, s) or (detail and util.sigdecode_strings([bytearray(enc[0]), memoryview(enc[1])], n) != (r, s)):
             ctx.violation("strings_roundtrip", "sigdecode_strings(sigencode_strings(%d,%d,%d))" % (r, s, n), dict(n=n, r=r, s=s), _rp("strings", r, s, n))
     except Exception as e:
         ctx.case("rt.strings", key=key, nontrivial=detail)
@@ -90,7 +90,7 @@ def check_triplet(ctx, n, r, s, detail=True):
         ctx.case("rt.der", key=key, nontrivial=detail, sample=dict(n=n, r=r, s=s, encoded=enc) if ctx.want("rt.der") and n > 300 else None)
         if bytes(enc) != R.enc_sig(r, s):
             ctx.violation("der_encoding_wrong", "sigencode_der(%d,%d,%d) = %s, reference %s" % (r, s, n, bytes(enc).hex(), R.enc_sig(r, s).hex()), dict(n=n, r=r, s=s), _rp("der", r, s, n))
-        elif util.sigdecode_der(enc, n) != (r, s):
+        elif util.sigdecode_der(enc, n) != (r, s) or (detail and (util.sigdecode_der(bytearray(enc), n) != (r, s) or util.sigdecode_der(memoryview(enc), n) != (r, s))):
             ctx.violation("der_roundtrip", "sigdecode_der(sigencode_der(%d,%d,%d))" % (r, s, n), dict(n=n, r=r, s=s), _rp("der", r, s, n))
     except Exception as e:
         ctx.case("rt.der", key=key, nontrivial=detail)
